@@ -1,7 +1,10 @@
 """C13 - schema validation rejects every structurally invalid message (table-driven, each constraint violated in
 isolation at the root and under every parent), and accepts instances that satisfy all declared constraints."""
+import itertools
+
 from vp import schema
 
+XSI_NIL = '{http://www.w3.org/2001/XMLSchema-instance}nil'
 CHECKED = ('dateTime', 'boolean', 'integer', 'nonNegativeInteger', 'positiveInteger', 'PositiveInteger',
            'unsignedShort', 'duration')
 BAD_ENUM = 'not-in-the-enumeration'
@@ -94,8 +97,14 @@ def class_rules(cls):
     cn = schema.cname(cls)
     out = []
     if cn == 'saml.Conditions':
-        out.append((['class-rule', 'two-one-time-use'], lambda x: setattr(x, 'one_time_use', [saml.OneTimeUse(), saml.OneTimeUse()])))
-        out.append((['class-rule', 'two-proxy-restriction'], lambda x: setattr(x, 'proxy_restriction', [saml.ProxyRestriction(), saml.ProxyRestriction()])))
+        # [SAML core 2.5.1] at most one OneTimeUse and at most one ProxyRestriction, independently of each other: the
+        # only occurrence bounds of this kind; judged absolutely (every combination of 0..2 x 0..3 with an excess)
+        for n_otu, n_pr in itertools.product((0, 1, 2), (0, 1, 2, 3)):
+            if n_otu > 1 or n_pr > 1:
+                def combo(x, a=n_otu, b=n_pr):
+                    x.one_time_use = [saml.OneTimeUse() for _ in range(a)]
+                    x.proxy_restriction = [saml.ProxyRestriction() for _ in range(b)]
+                out.append((['class-bound', 'one-time-use=%d' % n_otu, 'proxy-restriction=%d' % n_pr], combo))
     elif cn == 'saml.AuthnContext':
         def both(x):
             x.authn_context_decl = saml.AuthnContextDecl(text='decl')
@@ -166,12 +175,23 @@ def evaluate(names):
             elif not special:
                 bad.append((['valid-instance'], 'valid-instance-rejected:%s' % exc))
         if base_ok:
+            # acceptance side: every other valid lexical form of a checked simple type
+            for xmlattr, (name, typ, req) in sorted(cls.c_attributes.items(), key=lambda kv: str(kv[0])):
+                ti = attr_type_info(typ)
+                if ti and ti[0] == 'simple' and ti[1] in schema.GOOD_ALT:
+                    for good in schema.GOOD_ALT[ti[1]]:
+                        xg = schema.base_instance(cls, 2)
+                        setattr(xg, name, good)
+                        n += 1
+                        st, exc = validates(xg)
+                        if st != 'ok':
+                            bad.append((['valid-spelling', name, ti[1], good], 'valid-instance-rejected:%s' % exc))
             for desc, viol in constraints(cls) + class_rules(cls):
                 x = schema.base_instance(cls, 2)
                 viol(x)
                 n += 1
                 st, exc = validates(x)
-                if desc[0] == 'class-rule':
+                if desc[0] in ('class-rule', 'class-bound'):
                     try:
                         x.verify()          # the class's own rule set
                         st = 'ok'
@@ -181,6 +201,23 @@ def evaluate(names):
                     if desc[0] == 'class-rule':
                         continue            # not (or no longer) a rule of this class: nothing to demand below
                     bad.append((desc, 'violation-accepted-at-root'))
+                if desc[0] != 'class-rule':
+                    # the same violation inside an element that also carries xsi:nil="true" (a foreign attribute for
+                    # every class but AttributeValue): still a violation
+                    xn = schema.base_instance(cls, 2)
+                    viol(xn)
+                    xn.extension_attributes[XSI_NIL] = 'true'
+                    n += 1
+                    try:
+                        if desc[0] == 'class-bound':
+                            xn.verify()
+                            stn = 'ok'
+                        else:
+                            stn = validates(xn)[0]
+                    except Exception:
+                        stn = 'rejected'
+                    if stn == 'ok' and schema.cname(cls) != 'saml.AttributeValue':
+                        bad.append((desc + ['with-xsi-nil'], 'violation-accepted-at-root'))
                 ps = parents_of(cls)
                 if not CFG['all_parents']:
                     ps = ps[:1]
@@ -236,7 +273,7 @@ def run(ctx):
         'coverage': {
             'evaluations': n, 'distinct_nontrivial': len(nontriv), 'exhaustive': True, 'classes': len(classes),
             'classes_whose_base_instance_validates': n_base_ok, 'constraint_violation_cases': n_constraints,
-            'rule': 'for every schema class: the base instance (all declared attributes and children, type-appropriate values) must validate without raising anything that is not a validation error; then every declared constraint - required attribute missing / empty, child count min-1, child count max+1, attribute or text of a checked simple type (dateTime, boolean, integer kinds, duration) with each ill-typed value, enumeration with a foreign value - is violated in isolation at the root and nested under %s, and valid_instance() must raise; 8 rules that classes declare in their own verify() (Conditions, AuthnContext, Assertion, AttributeValue, SubjectLocality) are judged differentially (refused at the root => refused at every depth); non-trivial counts distinct classes with at least one constraint' % ('every class that can contain it and, one level deeper, under every container of that class' if ctx.thorough else 'every class that can contain it'),
+            'rule': 'for every schema class: the base instance (all declared attributes and children, type-appropriate values) must validate without raising anything that is not a validation error; then every declared constraint - required attribute missing / empty, child count min-1, child count max+1, attribute or text of a checked simple type (dateTime, boolean, integer kinds, duration) with each ill-typed value, enumeration with a foreign value - is violated in isolation at the root and nested under %s, and valid_instance() must raise; every violation also inside an element carrying xsi:nil; the two occurrence bounds the Conditions class declares in its verify() (at most one OneTimeUse, at most one ProxyRestriction: all 8 exceeding combinations of 0..2 x 0..3) judged absolutely at the root and at every depth; 6 further rules that classes declare in their own verify() (AuthnContext, Assertion, AttributeValue, SubjectLocality) judged differentially (refused at the root => refused at every depth); acceptance side: every other valid lexical form of the checked simple types (fractions of 1..12 digits, booleans 1/0, large and zero integers, duration forms); non-trivial counts distinct classes with at least one constraint' % ('every class that can contain it and, one level deeper, under every container of that class' if ctx.thorough else 'every class that can contain it'),
             'samples': [{'class': res[0][0][0], 'cases': res[0][0][1]}],
         },
         'assumptions': ['constraints = what the class tables declare (c_attributes required flag, c_cardinality, declared simple types); children without a c_cardinality entry have no declared bound',
@@ -247,15 +284,29 @@ def run(ctx):
 def replay(ctx, w):
     classes = {schema.cname(c): c for c in schema.discover()}
     cls = classes[w['class']]
+    if w['constraint'][0] == 'valid-spelling':
+        x = schema.base_instance(cls, 2)
+        setattr(x, w['constraint'][1], w['constraint'][3])
+        st, exc = validates(x)
+        return {'violation': st != 'ok', 'observed': [st, exc]}
     if w['constraint'] == ['valid-instance']:
         st, exc = validates(schema.base_instance(cls, 2))
         return {'violation': st != 'ok', 'observed': [st, exc]}
-    desc = w['constraint']
+    desc = [d for d in w['constraint'] if d != 'with-xsi-nil']
+    nil = 'with-xsi-nil' in w['constraint']
     core = desc[:desc.index('under')] if 'under' in desc else desc
     for d, viol in constraints(cls) + class_rules(cls):
         if d == core:
             x = schema.base_instance(cls, 2)
             viol(x)
+            if nil:
+                x.extension_attributes[XSI_NIL] = 'true'
+            if core[0] == 'class-bound' and 'under' not in desc:
+                try:
+                    x.verify()
+                    return {'violation': True, 'observed': ['ok', None]}
+                except Exception as e:
+                    return {'violation': False, 'observed': ['rejected', type(e).__name__]}
             if 'under' in desc:
                 pcls = classes[desc[desc.index('under') + 1]]
                 for p, member, is_list in parents_of(cls):
